@@ -23,7 +23,9 @@ import (
 	"reflect"
 	"strings"
 
+	"github.com/ethereum/go-ethereum/common"
 	"github.com/ethereum/go-ethereum/crypto"
+	"github.com/jackc/pgx/v4/pgxpool"
 	pubsub "github.com/libp2p/go-libp2p-pubsub"
 
 	"crypto/ecdsa"
@@ -34,11 +36,13 @@ import (
 	"github.com/shutter-network/rolling-shutter/rolling-shutter/keyperimpl/gnosis/gnosisssztypes"
 	"github.com/shutter-network/rolling-shutter/rolling-shutter/keyperimpl/shutterservice"
 	"github.com/shutter-network/rolling-shutter/rolling-shutter/keyperimpl/shutterservice/serviceztypes"
+	syncevent "github.com/shutter-network/rolling-shutter/rolling-shutter/medley/chainsync/event"
 	"github.com/shutter-network/rolling-shutter/rolling-shutter/medley/identitypreimage"
 	"github.com/shutter-network/rolling-shutter/rolling-shutter/medley/testkeygen"
 	"github.com/shutter-network/rolling-shutter/rolling-shutter/p2pmsg"
 	"github.com/shutter-network/rolling-shutter/rolling-shutter/shdb"
 
+	"verifharness/pgfake"
 	"verifharness/vh"
 )
 
@@ -65,6 +69,12 @@ type sigSpec struct {
 	Why  string     `json:"why,omitempty"` // how the entry was derived (distribution only)
 }
 
+type setSpec struct {
+	Eon       uint64 `json:"eon"`
+	Keypers   []int  `json:"keypers"`
+	Threshold int32  `json:"threshold"`
+}
+
 type c06Case struct {
 	Target    string `json:"target"`  // gnosis-sigs | service-sigs | gnosis-basic | gnosis-keyper | accessnode
 	Keypers   []int  `json:"keypers"` // universe key per keyper slot, -1: a string that is no address
@@ -81,6 +91,11 @@ type c06Case struct {
 
 	Signers []uint64  `json:"signers"`
 	Sigs    []sigSpec `json:"sigs"`
+
+	// accessnode / gnosis-keyper-db: what else the node's storage / the keyper_set table holds:
+	// keyper sets of OTHER eons, and (access node) other eons whose eon key is known
+	OtherSets    []setSpec `json:"other_sets,omitempty"`
+	OtherEonKeys []uint64  `json:"other_eon_keys,omitempty"`
 
 	// accessnode
 	AnInstance uint64 `json:"an_instance,omitempty"`
@@ -267,6 +282,20 @@ func hashableTuple(t tupleSpec) bool {
 }
 
 func (c *c06Case) keyperSet() *obskeyperdatabase.KeyperSet {
+	return setOf(setSpec{Eon: c.Eon, Keypers: c.Keypers, Threshold: c.Threshold})
+}
+
+// allSets: the keyper sets the node / the database knows (the message's own eon first).
+func (c *c06Case) allSets() []setSpec {
+	var out []setSpec
+	if !c.NoSet {
+		out = append(out, setSpec{Eon: c.Eon, Keypers: c.Keypers, Threshold: c.Threshold})
+	}
+	return append(out, c.OtherSets...)
+}
+
+func setOf(sp setSpec) *obskeyperdatabase.KeyperSet {
+	c := sp
 	ks := &obskeyperdatabase.KeyperSet{KeyperConfigIndex: int64(c.Eon), Threshold: c.Threshold, Keypers: []string{}}
 	for _, k := range c.Keypers {
 		if k < 0 {
@@ -367,7 +396,7 @@ func classify(err string) string {
 		return "RTxpTooLarge"
 	case has("msg does not contain any keys"):
 		return "RNoKeys"
-	case has("no keyper set found"):
+	case has("no keyper set found"), has("failed to get keyper set from database"):
 		return "RNoKeyperSet"
 	case has("instance ID mismatch"):
 		return "RInstance"
@@ -418,6 +447,43 @@ func observe(run *vh.Run, what string, f func() (pubsub.ValidationResult, error)
 	return observed{Verdict: "other"}
 }
 
+var (
+	dbSrv   *pgfake.Server
+	dbConn  *pgxpool.Pool
+	dbEmpty *pgfake.Store
+)
+
+func dbPool(run *vh.Run) *pgxpool.Pool {
+	if dbConn != nil {
+		return dbConn
+	}
+	srv, err := pgfake.Start(pgfake.Options{RepoRoot: run.Repo})
+	if err != nil {
+		panic(err)
+	}
+	pool, err := srv.Pool(context.Background())
+	if err != nil {
+		panic(err)
+	}
+	dbSrv, dbConn, dbEmpty = srv, pool, srv.Store().Snapshot()
+	return pool
+}
+
+// dbFinish reports what the fake database noticed (changed SQL texts, unknown statements).
+func dbFinish(run *vh.Run) {
+	if dbSrv == nil {
+		return
+	}
+	for _, t := range dbSrv.Ties() {
+		run.Tie(fmt.Sprintf("pgfake: %v", t))
+	}
+	for _, i := range dbSrv.RuntimeIssues() {
+		run.Tie("pgfake: " + i.String())
+	}
+	dbConn.Close()
+	dbSrv.Close()
+}
+
 func execute(run *vh.Run, c *c06Case) observed {
 	msg := c.message()
 	switch c.Target {
@@ -456,17 +522,69 @@ func execute(run *vh.Run, c *c06Case) observed {
 		})
 	case "accessnode":
 		initEonKeys()
-		storage := gnosisaccessnode.NewStorage()
-		if !c.AnNoEonKey {
-			storage.AddEonKey(c.Eon, eonKeys.EonPublicKey())
-		}
-		if !c.NoSet {
-			storage.AddKeyperSet(c.Eon, c.keyperSet())
-		}
 		cfg := &gnosisaccessnode.Config{InstanceID: c.AnInstance, MaxNumKeysPerMessage: c.AnMaxKeys}
-		h := gnosisaccessnode.NewDecryptionKeysHandler(cfg, storage)
+		eonKeyEons := append([]uint64{}, c.OtherEonKeys...)
+		if !c.AnNoEonKey {
+			eonKeyEons = append(eonKeyEons, c.Eon)
+		}
+		viaCallbacks := true
+		for _, sp := range c.allSets() {
+			for _, k := range sp.Keypers {
+				viaCallbacks = viaCallbacks && k >= 0 // the callback takes addresses, not strings
+			}
+		}
+		var h *gnosisaccessnode.DecryptionKeysHandler
+		if viaCallbacks {
+			// the storage is filled the way the running node fills it: by its chain sync callbacks
+			node := gnosisaccessnode.New(cfg)
+			ctx := context.Background()
+			for _, sp := range c.allSets() {
+				ev := &syncevent.KeyperSet{Eon: sp.Eon, Threshold: uint64(int64(sp.Threshold)), Members: []common.Address{}}
+				for _, k := range sp.Keypers {
+					ev.Members = append(ev.Members, crypto.PubkeyToAddress(uniKeys[k].PublicKey))
+				}
+				if err := node.VerifOnNewKeyperSet(ctx, ev); err != nil {
+					run.Tie("onNewKeyperSet failed: " + err.Error())
+				}
+			}
+			for _, e := range eonKeyEons {
+				if err := node.VerifOnNewEonKey(ctx, &syncevent.EonPublicKey{Eon: e, Key: eonKeys.EonPublicKey().Marshal()}); err != nil {
+					run.Tie("onNewEonKey failed: " + err.Error())
+				}
+			}
+			h = node.VerifDecryptionKeysHandler()
+			run.Dist["accessnode-storage:callbacks"]++
+		} else {
+			storage := gnosisaccessnode.NewStorage()
+			for _, e := range eonKeyEons {
+				storage.AddEonKey(e, eonKeys.EonPublicKey())
+			}
+			for _, sp := range c.allSets() {
+				storage.AddKeyperSet(sp.Eon, setOf(sp))
+			}
+			h = gnosisaccessnode.NewDecryptionKeysHandler(cfg, storage)
+			run.Dist["accessnode-storage:direct"]++
+		}
 		return observe(run, c.Target, func() (pubsub.ValidationResult, error) {
 			return h.ValidateMessage(context.Background(), msg)
+		})
+	case "gnosis-keyper-db":
+		// the keyper's real DecryptionKeysHandler.ValidateMessage over the fake PostgreSQL
+		ctx := context.Background()
+		pool := dbPool(run)
+		dbSrv.SetStore(dbEmpty)
+		q := obskeyperdatabase.New(pool)
+		for _, sp := range c.allSets() {
+			ks := setOf(sp)
+			if err := q.InsertKeyperSet(ctx, obskeyperdatabase.InsertKeyperSetParams{
+				KeyperConfigIndex: ks.KeyperConfigIndex, ActivationBlockNumber: int64(sp.Eon), Keypers: ks.Keypers, Threshold: ks.Threshold,
+			}); err != nil {
+				run.Tie("InsertKeyperSet failed: " + err.Error())
+			}
+		}
+		h := gnosis.VerifNewDecryptionKeysHandler(pool)
+		return observe(run, c.Target, func() (pubsub.ValidationResult, error) {
+			return h.ValidateMessage(ctx, msg)
 		})
 	}
 	panic("target " + c.Target)
@@ -531,7 +649,7 @@ func otherChecksPass(c *c06Case) bool {
 	switch c.Target {
 	case "gnosis-sigs", "service-sigs":
 		return len(c.Ids) <= 1024
-	case "gnosis-keyper":
+	case "gnosis-keyper", "gnosis-keyper-db":
 		return basic() && !c.NoSet && len(c.Ids) <= 1024
 	case "accessnode":
 		if c.Inst != c.AnInstance || c.Eon > math.MaxInt64 || len(c.Ids) == 0 || c.AnNoEonKey {
@@ -610,6 +728,12 @@ func oracle(run *vh.Run, c *c06Case, o observed) {
 		return
 	}
 	if c.Target == "gnosis-basic" {
+		return
+	}
+	if o.Verdict == "accept" && c.NoSet {
+		violate(run, vh.Violation{Key: "C06:" + site(c) + ":accepted-without-keyper-set-of-own-eon",
+			What: "message accepted although the keyper set of the message's own eon is not known: its signers and signatures were judged against another eon's set",
+			Case: c, Observed: o, Expected: "reject"})
 		return
 	}
 	ok, why := ruleHolds(c)
@@ -698,6 +822,10 @@ func coqSigs(ss []sigSpec) string {
 }
 
 func (c *c06Case) coqKeyperSet() string {
+	return coqSet(setSpec{Keypers: c.Keypers, Threshold: c.Threshold})
+}
+
+func coqSet(c setSpec) string {
 	xs := make([]string, len(c.Keypers))
 	for i, k := range c.Keypers {
 		if k < 0 {
@@ -761,15 +889,24 @@ func (c *c06Case) coqCase(id uint64, o observed) string {
 		return vh.CApp("CBasic", vh.CN(id), c.coqMsg(), coqVerdict(o))
 	case "gnosis-keyper":
 		return vh.CApp("CKeyper", vh.CN(id), vh.COpt(!c.NoSet, c.coqKeyperSet()), c.coqMsg(), signers, coqSigs(c.Sigs), coqVerdict(o))
+	case "gnosis-keyper-db":
+		var rows []string
+		for _, sp := range c.allSets() {
+			rows = append(rows, vh.CPair(vh.CZ(int64(sp.Eon)), coqSet(sp)))
+		}
+		return vh.CApp("CKeyperDB", vh.CN(id), vh.CList(rows), c.coqMsg(), signers, coqSigs(c.Sigs), coqVerdict(o))
 	case "accessnode":
-		eonkeys := "[]"
+		var ek, ss []string
 		if !c.AnNoEonKey {
-			eonkeys = vh.CList([]string{vh.CN(c.Eon)})
+			ek = append(ek, vh.CN(c.Eon))
 		}
-		sets := "[]"
-		if !c.NoSet {
-			sets = vh.CList([]string{vh.CPair(vh.CN(c.Eon), c.coqKeyperSet())})
+		for _, e := range c.OtherEonKeys {
+			ek = append(ek, vh.CN(e))
 		}
+		for _, sp := range c.allSets() {
+			ss = append(ss, vh.CPair(vh.CN(sp.Eon), coqSet(sp)))
+		}
+		eonkeys, sets := vh.CList(ek), vh.CList(ss)
 		st := vh.CApp("Build_an_state", vh.CN(c.AnInstance), vh.CN(c.AnMaxKeys), eonkeys, sets)
 		return vh.CApp("CAccess", vh.CN(id), st, c.coqMsg(), signers, coqSigs(c.Sigs), coqVerdict(o))
 	}
@@ -781,7 +918,7 @@ func (c *c06Case) coqCase(id uint64, o observed) string {
 
 func validCase(c *c06Case) error {
 	switch c.Target {
-	case "gnosis-sigs", "gnosis-keyper", "accessnode", "gnosis-basic":
+	case "gnosis-sigs", "gnosis-keyper", "gnosis-keyper-db", "accessnode", "gnosis-basic":
 	case "service-sigs":
 	default:
 		return fmt.Errorf("unknown target %q", c.Target)
@@ -796,6 +933,24 @@ func validCase(c *c06Case) error {
 		if k >= universeSize {
 			return fmt.Errorf("keyper key outside the universe")
 		}
+	}
+	seen := map[uint64]bool{c.Eon: true}
+	for _, sp := range c.OtherSets {
+		if seen[sp.Eon] {
+			return fmt.Errorf("two keyper sets for eon %d", sp.Eon)
+		}
+		seen[sp.Eon] = true
+		if c.Target == "gnosis-keyper-db" && sp.Eon > math.MaxInt64 {
+			return fmt.Errorf("keyper config index beyond int64")
+		}
+		for _, k := range sp.Keypers {
+			if k >= universeSize {
+				return fmt.Errorf("keyper key outside the universe")
+			}
+		}
+	}
+	if len(c.OtherSets) > 0 && c.Target != "accessnode" && c.Target != "gnosis-keyper-db" {
+		return fmt.Errorf("other_sets only with accessnode / gnosis-keyper-db")
 	}
 	for _, s := range c.Sigs {
 		if s.Kind == "by" {
@@ -1169,7 +1324,56 @@ func identityLengthFamily(run *vh.Run, target string) {
 	}
 }
 
+// mixedEonFamily: the node / the database knows any subset of four keyper sets with DIFFERENT
+// members and thresholds for the eons N-2, N-1, N, N+1 (and, access node, the eon key of N or
+// not); the message is for eon N, carries genuine keys, and is signed - over its own instance,
+// eon, slot, tx pointer and identities - by a threshold of the members of ONE of the four sets.
+// Only the set of eon N counts, and only when it is known.
+func mixedEonFamily(run *vh.Run, target string) {
+	const n = 7
+	own := setSpec{Eon: n, Keypers: []int{1, 4, 2}, Threshold: 2}
+	others := []setSpec{
+		{Eon: n - 2, Keypers: []int{0, 5}, Threshold: 2},
+		{Eon: n - 1, Keypers: []int{3, 0, 5}, Threshold: 2},
+		{Eon: n + 1, Keypers: []int{5, 3}, Threshold: 1},
+	}
+	signedBy := append([]setSpec{own}, others...)
+	eonKeyStates := []bool{false}
+	if target == "accessnode" {
+		eonKeyStates = []bool{false, true}
+	}
+	for mask := 0; mask < 16; mask++ {
+		for _, noEonKey := range eonKeyStates {
+			for _, by := range signedBy {
+				c := baseCase(target, 3, own.Threshold)
+				c.Eon = n
+				c.Keypers = append([]int{}, own.Keypers...)
+				c.NoSet = mask&1 == 0
+				for i, o := range others {
+					if mask&(2<<i) != 0 {
+						c.OtherSets = append(c.OtherSets, o)
+						if i%2 == 0 {
+							c.OtherEonKeys = append(c.OtherEonKeys, o.Eon)
+						}
+					}
+				}
+				c.AnNoEonKey = noEonKey
+				t := c.ownTuple()
+				for i := 0; i < int(by.Threshold); i++ {
+					c.Signers = append(c.Signers, uint64(i))
+					tt := t
+					c.Sigs = append(c.Sigs, sigSpec{Kind: "by", Key: by.Keypers[i], T: &tt, Why: fmt.Sprintf("threshold-of-set-of-eon-N%+d", int(by.Eon)-n)})
+				}
+				run.Dist[fmt.Sprintf("mixed-eon:%s:own-set-known=%v:signed-by-N%+d", target, !c.NoSet, int(by.Eon)-n)]++
+				runCase(run, c)
+			}
+		}
+	}
+}
+
 func forced(run *vh.Run) {
+	mixedEonFamily(run, "accessnode")
+	mixedEonFamily(run, "gnosis-keyper-db")
 	for _, target := range []string{"gnosis-sigs", "gnosis-keyper", "accessnode", "service-sigs"} {
 		identityLengthFamily(run, target)
 	}
@@ -1234,7 +1438,7 @@ func forced(run *vh.Run) {
 		}
 	}
 	// ValidateDecryptionKeysBasic and the chain around the signature rule
-	for _, target := range []string{"gnosis-basic", "gnosis-keyper", "accessnode"} {
+	for _, target := range []string{"gnosis-basic", "gnosis-keyper", "gnosis-keyper-db", "accessnode"} {
 		variants := []func(c *c06Case){
 			func(c *c06Case) {},
 			func(c *c06Case) { c.Extra = "gnosis-nil" },
@@ -1275,7 +1479,7 @@ func forced(run *vh.Run) {
 }
 
 func randomCase(r *vh.RNG) *c06Case {
-	target := vh.Pick(r, "gnosis-sigs", "gnosis-sigs", "service-sigs", "service-sigs", "gnosis-keyper", "accessnode")
+	target := vh.Pick(r, "gnosis-sigs", "gnosis-sigs", "gnosis-sigs", "service-sigs", "service-sigs", "service-sigs", "gnosis-keyper", "gnosis-keyper-db", "accessnode", "accessnode")
 	n := r.Intn(5)
 	c := baseCase(target, 0, 0)
 	// keyper set
@@ -1361,9 +1565,43 @@ func randomCase(r *vh.RNG) *c06Case {
 			c.Sigs[i], c.Sigs[i+1] = c.Sigs[i+1], c.Sigs[i]
 		}
 	}
-	if target == "accessnode" || target == "gnosis-keyper" {
+	if target == "accessnode" || target == "gnosis-keyper" || target == "gnosis-keyper-db" {
 		if r.Chance(1, 20) {
 			c.NoSet = true
+		}
+	}
+	// other eons' keyper sets next to (or instead of) the message's own; sometimes the message is
+	// signed by a threshold of the lower eon's set
+	if (target == "accessnode" || target == "gnosis-keyper-db") && r.Chance(1, 2) {
+		var cand []uint64
+		if c.Eon > 0 {
+			cand = append(cand, c.Eon-1)
+		}
+		if c.Eon < math.MaxInt64 {
+			cand = append(cand, c.Eon+1)
+		}
+		for _, e := range cand {
+			if r.Chance(2, 3) {
+				p := r.Perm(6)
+				k := 1 + r.Intn(3)
+				c.OtherSets = append(c.OtherSets, setSpec{Eon: e, Keypers: p[:k], Threshold: int32(1 + r.Intn(k))})
+				if r.Chance(1, 2) {
+					c.OtherEonKeys = append(c.OtherEonKeys, e)
+				}
+			}
+		}
+		if len(c.OtherSets) > 0 && r.Chance(1, 2) {
+			c.NoSet = true
+		}
+		if len(c.OtherSets) > 0 && hashableTuple(c.ownTuple()) && r.Chance(1, 2) {
+			by := c.OtherSets[0]
+			c.Signers, c.Sigs = nil, nil
+			t := c.ownTuple()
+			for i := 0; i < int(by.Threshold); i++ {
+				tt := t
+				c.Signers = append(c.Signers, uint64(i))
+				c.Sigs = append(c.Sigs, sigSpec{Kind: "by", Key: by.Keypers[i], T: &tt, Why: "threshold-of-another-eons-set"})
+			}
 		}
 	}
 	// the message's identities differ from the signed ones in length only
@@ -1381,6 +1619,7 @@ func randomCase(r *vh.RNG) *c06Case {
 func main() {
 	run := vh.Start("Verif.Corr.C06", 800)
 	defer run.Finish()
+	defer dbFinish(run)
 	run.Rule = "keyper sets of real ECDSA addresses (n<=3 enumerated: every threshold 0..n+1 x every signer list of length 0..n+1 over {0..n} x every signature count 0..n+1; every signature list over the 13-entry alphabet for every well-formed signer list; n=4 sampled in quick, enumerated in thorough), both flavours, the access node handler and the keyper chain; non-trivial = the signer list passes the count/order/range tests so the verdict is decided by the signatures; distinct by canonical JSON of the case"
 	initUniverse()
 
